@@ -105,7 +105,8 @@ func init() {
 		},
 		Custom:  []string{"partial"},
 		Partial: []string{modPath + "/js.(*jsMinifier).hoistVars", modPath + "/js.(*jsMinifier).minifyProperty",
-			modPath + "/js.(*jsMinifier).minifyFuncDecl", modPath + "/js.(*jsMinifier).minifyMethodDecl", modPath + "/js.(*jsMinifier).minifyArrowFunc", modPath + "/js.(*jsMinifier).minifyStmt"},
+			modPath + "/js.(*jsMinifier).minifyFuncDecl", modPath + "/js.(*jsMinifier).minifyMethodDecl", modPath + "/js.(*jsMinifier).minifyArrowFunc", modPath + "/js.(*jsMinifier).minifyStmt",
+			modPath + "/js.(*Minifier).Minify", modPath + "/js.newRenamer"},
 		Bounded: []BoundedUnit{
 			{Harness: modPath + "/js.specHarnessRenamerNames2", For: modPath + "/js.(*renamer).getName", QuickN: 1, ThoroughN: 1, Tier: "quick",
 				What: "every index of a one- or two-character name, both alphabets, in-place and reallocating buffers: getName yields an IdentifierName and getIndex(getName(i)) == i (hence injective)"},
